@@ -6,6 +6,7 @@ mod util;
 mod c17;
 mod c08;
 mod c02;
+mod c04;
 mod gen;
 mod dicts;
 mod texts;
@@ -25,6 +26,9 @@ fn main() {
         "tok-record" => tok::record(rest),
         "c02-replay" => c02::replay(rest),
         "c02-record" => c02::record(rest),
+        "c04-replay" => c04::replay(rest),
+        "c04-record" => c04::record(rest),
+        "c04-why" => c04::why(rest),
         other => {
             eprintln!("unknown subcommand {}", other);
             2
